@@ -11,7 +11,7 @@
    Dict, Relation, UnionSet, GenericSet, True/Empty) are tied to this semantics
    by the correspondence run, which compares the denotation of every
    implementation result with [run_data]. *)
-From Arrai Require Import Base.Val Spec.SetAlg Eval.Interp Proofs.ValOrder Proofs.SetAlgP Sys.Heap Rep.SeqRep.
+From Arrai Require Import Base.Val Spec.SetAlg Eval.Interp Proofs.ValOrder Proofs.SetAlgP Sys.Heap Rep.SeqRep Proofs.WfP.
 
 Theorem C01_order_is_total_and_eq_is_identity :
   forall a b c, vcmp a a = Eq /\ (vcmp a b = Eq -> a = b) /\
@@ -120,3 +120,10 @@ Print Assumptions C01_string_without_refines.
 Theorem C01_string_has_is_membership : forall off c i x, has off c i x = true <-> get off c i = Some x.
 Proof. exact has_spec. Qed.
 Print Assumptions C01_string_has_is_membership.
+
+(* the set operators are applied to canonical operands whatever earlier operators produced them:
+   every intermediate value of every program is canonical (scope and closures included) *)
+Theorem C01_operands_are_canonical :
+  forall n rho e v, EWF rho -> eval n rho e = Ok (D v) -> Canon v.
+Proof. exact eval_canonical. Qed.
+Print Assumptions C01_operands_are_canonical.
